@@ -161,6 +161,15 @@ def check(repo: Repo, rep: Report) -> None:
             rep.ob("A1-forward-unchanged", g, desc, p.kinds == [want],
                    f"on a non-raising path the {slot} handler of {root.parent.name if root.parent else root.name} does not forward "
                    f"exactly `{obs}.{want}`: the observed sequence is changed (dropped, duplicated or altered notification)")
+    # the do_* operators observe a sequence without changing it -- that includes *when* it runs: the source is subscribed
+    # with the subscriber's scheduler
+    from .typestate_common import rule_scheduler_forwarded
+    rep.rule("A2-scheduler-forwarded", "do_* operators subscribe their source with the subscriber's scheduler", floor=4)
+    for g in mod.root.walk():
+        if g.is_func and m.role.get(g) == "subscribe":
+            rule_scheduler_forwarded(rep, "A2-scheduler-forwarded", g)
+    for rel_, q_ in ((US, "using_.subscribe"), (FA, "finally_action_.finally_action.subscribe")):
+        rule_scheduler_forwarded(rep, "A2-scheduler-forwarded", repo.fn(rel_, q_))
     # pass-through slots (bound methods) of the do_* operators forward by construction; count them
     for f in mod.root.children:
         if f.is_func and f.name.startswith("do_") and f.name not in ("do_",):
